@@ -1,9 +1,9 @@
 (* C04  Table initialisation accepts exactly the well-formed tables.
    Statements only (printed by Coq from the lemmas they are closed with); proofs in Proof/RegLemmas.v, Proof/RegInitLemmas.v;
    model Model/RegTable.v (reg_init mirrors register_init step by step and is tied to it by correspondence over the layout grid).
-   Not a theorem: that after a successful initialisation every register of a writeable area holds its default (the frame argument over
-   the sequence of default stores) - correspondence only. *)
-From Ufw Require Import Base.Bits Model.RegTable Proof.RegLemmas Proof.RegInitLemmas.
+   The post-state is proved for plain tables (all areas memory-backed and default-loading); for tables with callback-backed, read-only
+   or skip-defaults areas it is correspondence-tested only. *)
+From Ufw Require Import Base.Bits Model.RegTable Proof.RegLemmas Proof.RegInitLemmas Proof.RegInvariant Proof.RegMemory Proof.RegBlockInv Proof.RegInitInv.
 Local Open Scope N_scope.
 
 (* initialisation succeeds exactly when there is an area, the areas and the entries are each ordered and disjoint (every element starts at or behind the end of its predecessor), and the defaults load *)
@@ -104,6 +104,19 @@ Theorem C04_first_break_is_first :
          nth_error (prev :: r) k = Some p /\ start x < start p + len p /\ chain start len prev (firstn k r).
 Proof. exact (@first_break_some). Qed.
 Print Assumptions C04_first_break_is_first.
+
+(* after a successful initialisation of a plain table (memory-backed, default-loading areas; no always-failing constraint; typed defaults) the entries are unchanged, every register reads back its default, and the constraint invariant of C05 holds *)
+Theorem C04_post_state :
+  forall t t' : table,
+         plain_table t ->
+         reg_init t = (ISuccess, 0, t') ->
+         InvB t' /\
+         t_entries t' = t_entries t /\
+         (forall (idx : N) (e : entry),
+          entry_at t' idx = Some e ->
+          reg_get t' idx = (ASuccess, 0, Some {| v_type := e_type e; v_bits := e_default e |})).
+Proof. exact (@init_establishes_invariant). Qed.
+Print Assumptions C04_post_state.
 
 (* a failed initialisation leaves the table uninitialised *)
 Theorem C04_failure_uninitialised :
